@@ -153,17 +153,20 @@ pub(super) fn observe(info: PassInfo) -> bool {
     // No observer installed: a process-wide guard can be configured through the environment, so that
     // a non-terminating input ends the process with a recognisable status instead of hanging forever.
     if let Ok(cap) = std::env::var("MOS_VERIF_PASSES") {
-        let cap: usize = cap.parse().unwrap_or(500);
+        // The pass loop is only declared non-terminating when it is still running at the cap; whether the
+        // state sequence had become periodic by then tells a proven cycle from a slow drift.
+        let cap: usize = cap.parse().unwrap_or(1500);
         let verdict = ENV_HISTORY.with(|h| {
             let mut h = h.borrow_mut();
             if info.pass_idx == 0 {
                 h.clear();
             }
             h.push(info.digest);
-            if let Some(period) = periodic_tail(&h, 3) {
-                Some(format!("cycle period={} pass={}", period, info.pass_idx))
-            } else if h.len() >= cap {
-                Some(format!("cap={} pass={}", cap, info.pass_idx))
+            if h.len() >= cap {
+                match periodic_tail(&h, 3) {
+                    Some(period) => Some(format!("cycle period={} pass={}", period, info.pass_idx)),
+                    None => Some(format!("cap={} pass={}", cap, info.pass_idx)),
+                }
             } else {
                 None
             }
